@@ -271,6 +271,12 @@ func check(s *txnh.TxnScenario, x *sched.Exec) []sched.Violation {
 	// (locks are judged before any forced resolution: take them from the log-independent state captured now)
 	t := txnh.ReadTruth(s.W.B, s.Keys)
 	for _, sv := range txnh.AuditSI(s.H, t) {
+		if lost {
+			// after a flush request / answer was lost the transaction is doomed (the error surfaces at the
+			// next flush, flush-wait or commit); what reads return in between is not judged, only that the
+			// transaction does not report success without its writes (checked above) and leaves no lock
+			continue
+		}
 		if strings.HasPrefix(sv.Key, "si:read:") {
 			sv.Key = "pipelined:" + sv.Key
 			out = append(out, sv)
